@@ -382,9 +382,10 @@ def _eff(case):
 
 
 def model_requests(case, impl):
+    if "infra" in impl:
+        # infrastructure trouble must end the run with exit 2, never with a verdict
+        raise RuntimeError("C41 real-fork infrastructure: " + str(impl["infra"]))
     if case["kind"] == "real":
-        if "infra" in impl:
-            return []
         fk, ws = _args(case, impl)
         return [line(ID, "run", case["n"], case["budget"], fk, ws)]
     n, b = case["n"], case["budget"]
